@@ -71,9 +71,10 @@ Inductive ares :=
 | XUnit | XAddr (a : addr) | XF (x : fval) | XNat (n : nat) | XBool (b : bool)
 | XVal (v : V) | XItem (k : K) (v : V) | XKeyError | XCrash.
 
+(* dict.__eq__(self, other): same size, and every item of self is found in other *)
 Definition dict_eq_items (d : pydict V) (l : list (K * V)) : bool :=
   Nat.eqb (length d) (length l) &&
-  forallb (fun p => match d_get d (fst p) with Some v => Nat.eqb v (snd p) | None => false end) l.
+  forallb (fun p => match d_get l (fst p) with Some v => Nat.eqb v (snd p) | None => false end) d.
 
 Definition sem (a : act) (s : shared) : shared * ares :=
   match a with
